@@ -1231,8 +1231,12 @@ def static_obligations(repo) -> list[str]:
         for what, s in {
             "stage-2 guard": "not context.options.no_data_loss or not context.options.no_explicit_cast",
             "stage-3 guard": "not context.options.no_data_loss and not context.options.no_explicit_cast",
-            "stage-2 options": "utype.Options(no_data_loss=True, no_explicit_cast=True)",
-            "stage-3 options": "utype.Options(no_data_loss=True)",
+            # since e7d1ed5 the two trial stages also pin the invalid_* policies to THROW (the model keeps them at THROW throughout)
+            "trial-stage policies": "dict(invalid_items=utype.Options.THROW, invalid_keys=utype.Options.THROW, "
+                                    "invalid_values=utype.Options.THROW)",
+            "stage-2 options": "utype.Options(no_data_loss=True, no_explicit_cast=True, **trial)",
+            "stage-3 options": "utype.Options(no_data_loss=True, invalid_items=utype.Options.THROW, "
+                               "invalid_keys=utype.Options.THROW, invalid_values=utype.Options.THROW)",
             "stage-2 context": "context.enter(cls.combinator, options=strict_options)",
             "stage-3 context": "context.enter(cls.combinator, options=no_loss_options)",
             "stage-4 context": "context.enter(cls.combinator)",
@@ -1334,9 +1338,14 @@ class C18(Check):
             out += [own_init_case(p, k, md) for p in ("direct", "optional", "list-0", "dict-key", "union-mid") for md in (1, 2, 3)
                     for k in (md, md + 1, md + 3)]
             out += [own_init_case(p, 1, 2, cyc=True) for p in ("direct", "list-0")]
-            out += [hostile_case(prim, where, h) for prim in ("datetime", "date", "timedelta", "time") for h in HOSTILE_NAMES
+            # quick samples the hostile matrix (thorough runs all of it): every scalar against datetime / date / int, the
+            # non-finite and huge-exponent ones against the other built-in types
+            out += [hostile_case(prim, where, h) for prim in ("datetime", "date") for h in HOSTILE_NAMES
                     for where in ("field", "list-item")]
-            out += [hostile_case(prim, "field", h) for prim in ("int", "float", "Decimal", "bool", "str", "UUID") for h in HOSTILE_NAMES]
+            out += [hostile_case("int", "field", h) for h in HOSTILE_NAMES]
+            out += [hostile_case(prim, "field", h) for prim in ("timedelta", "time", "float", "Decimal", "bool", "str", "UUID")
+                    for h in ("dec-inf", "dec-neg-inf", "dec-nan", "dec-snan", "dec-huge-exp", "dec-tiny-exp", "float-inf",
+                              "float-nan", "int-huge", "str-huge-exp", "str-long-digits")]
             # a limited root over a nested class with its own / no limit (known finding limit-not-inherited), and with override
             out += [mixed_limit_case(p, rmd, imd, k, ov) for p in ("direct", "optional", "list-0", "dict-key")
                     for rmd, imd in ((1, None), (2, None), (2, 4), (3, 1)) for k in (1, 2, 4) for ov in (False, True)]
